@@ -321,6 +321,9 @@ where
             return Err(MqttError::MalformedPacket);
         }
 
+        if data[0..buffer_size].iter().all(|&b| b == 0) {
+            return Err(MqttError::MalformedPacket);
+        }
         let packet_id = PacketIdType::from_buffer(&data[0..buffer_size]);
         let packet_id_buf = packet_id.to_buffer();
         cursor += buffer_size;
